@@ -21,7 +21,7 @@ func init() {
 			"first 400 bytes, 1-byte reads, last bytes delivered together with io.EOF, reads returning (0, nil)) plus a read-only reader handed to a second Demuxer right after a call that returned a PAT/PMT, x reader kinds {seekable, bufio, plain} x {explicit, auto-detected} x packet sizes 188+k, each compared with the baseline (explicit 188, seekable, full reads); " +
 			"distinct = hash of (stream, configuration); non-trivial = the tap observed at least one short read or a non-baseline reader/size configuration",
 		Assumptions: []string{"auto-detection inputs respect the detector's documented assumption: first byte is a sync byte and no 0x47 among the bytes 188..188+k-1 / the k extra bytes",
-			"bufio.Reader sized ≥ 193 bytes", "plain reader + auto-detection: the peeked packets are consumed by design, so the packet list must be a suffix of the baseline and independent of chunking"},
+			"bufio.Reader sized ≥ 193 bytes when the packet size is auto-detected (the detector peeks 193 bytes); any size with an explicit packet size", "plain reader + auto-detection: the peeked packets are consumed by design, so the packet list must be a suffix of the baseline and independent of chunking"},
 		Shards: 32,
 		Run:    runC08,
 		Guards: func(m *mon.Merged, tier string) []string {
@@ -33,6 +33,7 @@ func init() {
 			need(m, &out, "eof_with_data_runs", 500)
 			need(m, &out, "zero_read_runs", 500)
 			need(m, &out, "shared_reader_runs", 150)
+			need(m, &out, "small_bufio_runs", 400)
 			needSet(m, &out, "reader_x_size", 6)
 			return out
 		},
@@ -302,6 +303,22 @@ func runC08(c *mon.Ctx) {
 				if d := itemsEqual(got, base["packet"][from:]); d != "" {
 					c.Violate("C08/differs-from-baseline:plain/188/handover/"+cc, "streams", i, d, data)
 				}
+			}
+		}
+		// (b3) a bufio.Reader smaller than a packet (explicit size: the Demuxer has no reason to need the packet inside the
+		// reader's buffer), and packets larger than the default bufio buffer
+		for _, bs := range []int{16, 64, 187, 188} {
+			api := []string{"data", "packet"}[r.IntN(2)]
+			try(fmt.Sprintf("bufio=%d", bs), s.Bytes, DemuxCfg{PacketSize: 188, Reader: "bufio", BufioSize: bs, API: api}, false, "full+small-bufio")
+			c.Count("small_bufio_runs")
+		}
+		for _, k := range []int{4096 - 188, 4097 - 188, 5000 - 188} {
+			ex := gen.Bytes(r, k)
+			huge := refts.Reframe(s.Bytes, k, func(p, j int) byte { return ex[j] ^ byte(p) })
+			for _, rd := range readers {
+				api := []string{"data", "packet"}[r.IntN(2)]
+				try(fmt.Sprintf("k=%d explicit", k), huge, DemuxCfg{PacketSize: 188 + k, Reader: rd, API: api}, false, "full+huge-packets")
+				c.Count("larger_packet_runs")
 			}
 		}
 		// (c) larger packets: explicit 188+k with arbitrary extra bytes; auto for k in 1..4 with extra bytes != 0x47
